@@ -17,8 +17,11 @@ def run(ctx):
         "the per-thread queue is modelled by its abstraction `pending` (that msg_queue_time_peek sees everything inserted "
         "before is property C15); message steps and phase steps interleave arbitrarily (over-approximation), except that a "
         "round is started only between two messages (gvt_phase_run is never called from inside process_msg)",
-        "node level (second reduction round, colour flip, per-colour counting of remote messages, MPI collectives) is NOT "
-        "modelled: the theorems are about the thread-level reduction; multi-node in-flight accounting is not covered",
+        "node level: the message-counting core (colour flip, per-destination sent counts, reduce-scatter, receive polling) is "
+        "modelled in Model/GvtNode.lean (theorems C04.Node.*) and tied by replaying the merged per-rank action logs of real "
+        "multi-rank runs; the composition 'thread-level cut + counting => no in-flight message below the reported value' is "
+        "NOT a theorem: it is monitored on multi-rank runs and on adversarial-peer runs (every remote message dequeued after "
+        "a GVT value was adopted is compared with it)",
         "the deterministic scheduler of harness/hc08.c"]
     ctx.assumptions += [
         "V2 + rollback rules: everything a thread inserts while processing / rolling back for a message with time stamp c "
@@ -70,3 +73,9 @@ def run(ctx):
     # node level on real multi-rank runs: the counting core replayed on Model/GvtNode.lean
     from props import gvtnode
     gvtnode.run(ctx)
+    # adversarial peer: remote events and anti-messages sent in the new colour right before the peer reports its minimum, delivered
+    # arbitrarily late; oracles: nothing dequeued below an adopted GVT, GVT monotone per thread, equal across threads per round
+    from props import runlib
+    pagg = runlib.peer_matrix(ctx, 30, 800, salt=4)
+    if pagg:
+        ctx.coverage["node_level_adversarial_peer"] = ctx.coverage.pop("peer_mode")
